@@ -117,10 +117,18 @@ class Gen:
                 out += self.wrap(lines, indent)
             elif kind == 'func':
                 name = 'f%d' % self.uid()
+                # sometimes redefine an earlier function of this scope: the later definition is the one Python keeps
+                earlier_funcs = [n for n, r in rec.items() if r['cat'] == 'func' and n.startswith('f') and r.get('deco') not in ('property', 'cached_property', 'old-static', 'old-class')]
+                if earlier_funcs and self.draw(st.integers(0, 3)) == 0:
+                    name = self.draw(st.sampled_from(earlier_funcs))
+                    self.interesting = True
                 deco = None
                 is_async = self.draw(st.integers(0, 5)) == 0
                 if in_class:
-                    deco = self.draw(st.sampled_from([None, None, 'classmethod', 'staticmethod', 'property', 'cached_property', 'old-static', 'old-class']))
+                    if name in rec:
+                        deco = self.draw(st.sampled_from([None, None, 'classmethod', 'staticmethod']))
+                    else:
+                        deco = self.draw(st.sampled_from([None, None, 'classmethod', 'staticmethod', 'property', 'cached_property', 'old-static', 'old-class']))
                     if name == '__init__':
                         deco = None
                 if deco in ('property', 'cached_property'):
